@@ -26,8 +26,8 @@ m = {
     "version": 1,
     "setup_cmd": "cd /verif/harness && CARGO_NET_OFFLINE=true cargo build --release --offline",
     "hooks": {
-        "guard": "--cfg fuellabs_fuel_vm_verif",
-        "enable": "RUSTFLAGS='--cfg fuellabs_fuel_vm_verif' via /verif/harness/.cargo/config.toml (build.rustflags); path dependencies on /repo/fuel-*",
+        "guard": "cargo feature fuellabs_fuel_vm_verif (off by default)",
+        "enable": "the harness depends on /repo/fuel-crypto with features=[\"fuellabs_fuel_vm_verif\"] (harness/Cargo.toml); path dependencies on /repo/fuel-* rebuild from the working tree",
         "baseline_off_cmd": "cd /repo && cargo nextest run --workspace --no-fail-fast --test-threads 8 --offline || cargo test --workspace --no-fail-fast --offline",
         "source_commits": json.load(open(os.path.join(root, "tools", "hook_commits.json"))),
         "add_only": True,
